@@ -1,12 +1,10 @@
-(* PipeSysFailStart.v -- one client-side bookkeeping step of the API preserves the stream invariant. *)
+(* PipeSysFailStart.v -- the error path of acquire_start preserves the stream invariant (groups proved in PipeSysFailStart1..4.v). *)
 From Coq Require Import List Bool Arith NArith Lia.
 From RecordUpdate Require Import RecordSet.
-From Pipe Require Import PipeModel PipeFacts PipeTac PipeInvDefs PipeSysTac.
+From Pipe Require Import PipeModel PipeFacts PipeTac PipeInvDefs PipeSysFailStart1 PipeSysFailStart2 PipeSysFailStart3 PipeSysFailStart4.
 Import ListNotations RecordSetNotations.
 
 Lemma sinv_fail_start s : SInv s -> c_stop s = CNone -> SInv (fail_start s).
 Proof.
-  intros Hs Hc. sinv_open Hs s. subst. destruct valid; [|sinv_tac].
-  destruct s_pc; destruct c_start; sinv_tac; rewrite ?orb_false_r, ?orb_true_r in *; fin.
+  intros Hs Hc. split; [apply inv1_fail_start; assumption | split; [apply inv2_fail_start; assumption | split; [apply inv3_fail_start; assumption | apply inv4_fail_start; assumption]]].
 Qed.
-
